@@ -100,7 +100,42 @@ def gen_cases(tier, rng, families):
             # V on a queued writer waits out its timeout: by then every follower is in the queue
             st += ["MG" + rng.choice(KEYS), "V" + names[-1], "Uw1", "Jw1"] + ["J" + nm for nm in names] + ["MG" + k for k in KEYS]
             add(st, "8388608:4096:4096:%d" % rng.randrange(2))
+        if "walgc" in families:
+            # the window between a memtable rotation and the installation of that memtable's flush,
+            # with a table compaction installing its result (and collecting garbage) inside it: the
+            # log of the rotated memtable is the only place its writes live, so a crash image taken
+            # right after the compaction (the background thread is parked again at the start of the
+            # flush) must still recover them
+            ks = rng.sample(KEYS, 4)
+            st = ["MP%s=x%02x%02x" % (k, rng.randrange(256), rng.randrange(256)) for k in ks[:2]]
+            st += ["MCxfe:xff", "Q", "MP%s=x%02x%02x" % (ks[0], rng.randrange(256), rng.randrange(256))]
+            if rng.random() < 0.5:
+                st += ["MD" + ks[1]]
+            st += ["MCxfe:xff", "Q"]
+            pt = "compact:finish" if rng.random() < 0.75 else "compact:loop"
+            st += ["Abg:" + pt, "Tc:C-:-", "Vbg"]
+            st += ["MP%s=r3000.%d" % (ks[2], rng.randrange(1000)), "MP%s=r3000.%d" % (ks[3], rng.randrange(1000)),
+                   "MP%s=x%02x" % (ks[0], rng.randrange(256))]
+            if rng.random() < 0.3:
+                st += ["K"]
+            st += ["Abg:flush:building", "Ubg", "Vbg", "K", "MG" + ks[2], "Ubg", "Jc", "Q", "K", "MA"]
+            add(st, "4096:4096:256:%d" % rng.randrange(2))
         if "bg" in families:
+            # a tombstone (or a newer value) that only the immutable memtable holds while its flush
+            # is parked, over an older value in a table file: reads must stop at the immutable
+            # memtable
+            ks = rng.sample(KEYS, 3)
+            st = ["MP%s=x%02x%02x" % (k, rng.randrange(256), rng.randrange(256)) for k in ks]
+            st += ["MCxfe:xff", "Q"]
+            st += ["MD" + ks[0], "MP%s=x%02x%02x" % (ks[1], rng.randrange(256), rng.randrange(256))]
+            if rng.random() < 0.5:
+                st += ["MD" + ks[2]]
+            st += ["Abg:flush:building", "Tc:Cxfe:xff", "Vbg"]
+            st += ["MG" + k for k in ks] + ["MA", "MS", "MH0:" + ks[0], "MZ0"]
+            if rng.random() < 0.5:
+                st += ["MP%s=x%02x%02x" % (ks[2], rng.randrange(256), rng.randrange(256)), "MG" + ks[2], "MG" + ks[0]]
+            st += ["Ubg", "Jc", "Q", "MA"] + ["MG" + k for k in KEYS]
+            add(st)
             for pt in BG_POINTS:
                 st = ["M" + wtok(rng, "P") for _ in range(rng.randrange(1, 4))]
                 if pt == "compact:loop":
@@ -130,6 +165,9 @@ def parse_script(case):
             o = dict(tok=op, start=i, end=len(toks) + 1, thread=name, step=None)
             ops.append(o)
             open_threads[name] = o
+        elif c == "K":
+            # a crash image recovered and scanned: every write acknowledged by now is in it
+            ops.append(dict(tok="A", start=i, end=i, thread="main", step=i))
         elif c == "J":
             if t[1:] in open_threads:
                 o = open_threads.pop(t[1:])
